@@ -23,10 +23,12 @@ type hist struct {
 	mode string // "c14" | "c05" | "c13"
 	// abstract nodes by status
 	applied map[int]bool
-	side    []int // submitted, never applied
-	fat     bool  // pool-full history: big transactions
-	fatSize int   // bytes of arbitrary data per transaction while set (0: the ~0.9 MB default of fat histories)
-	long    bool  // C13: long branches around the 144 boundary
+	side    []int           // submitted, never applied
+	fat     bool            // pool-full history: big transactions
+	fatSize int             // bytes of arbitrary data per transaction while set (0: the ~0.9 MB default of fat histories)
+	fee     *types.Currency // fee of the next transactions while set (scripted histories control fee rates)
+	plain   bool            // scripted histories: blocks carry no contract operations of their own
+	long    bool            // C13: long branches around the 144 boundary
 }
 
 func (h *hist) tipLedger() *mat.Ledger { return h.s.Ledger(h.x.Tip) }
@@ -67,6 +69,9 @@ func (h *hist) newTx(l *mat.Ledger, v2 bool, ins []types.SiacoinElement, nOuts i
 		fat = 900_000 + h.rng.Intn(50_000)
 	}
 	fee := oneSC.Div64(uint64(1 + h.rng.Intn(4)))
+	if h.fee != nil {
+		fee = *h.fee
+	}
 	return h.s.Catalogue(h.s.W.NewSiacoinPoolTx(l.CS, v2, ins, nOuts, fee, h.s.nextTag(), fat))
 }
 
@@ -113,8 +118,22 @@ func (h *hist) genSet(basis int) (kind string, set []Inst, shape string) {
 	if !v2 {
 		pool = h.x.p1
 	}
-	shapes := []string{"fresh", "fresh", "chain", "chain", "conflict-pool", "conflict-pool", "partly-known", "all-known", "bad", "double-spend", "missing-parent", "child-of-pool", "two-inputs"}
+	shapes := []string{"fresh", "fresh", "chain", "chain", "conflict-pool", "conflict-pool", "partly-known", "all-known", "bad", "double-spend", "missing-parent", "child-of-pool", "two-inputs", "mixed-inputs", "mixed-inputs"}
 	shape = shapes[h.rng.Intn(len(shapes))]
+	if v2 && h.mode != "c13" && h.rng.Intn(3) == 0 {
+		// a storage-proof resolution for a confirmed contract whose proof window is open (blocks of
+		// these modes never revise contracts, so the transaction stays valid until it is confirmed)
+		if sp := h.storageProofs(l, 1+h.rng.Intn(2)); len(sp) > 0 {
+			shape = "storage-proof"
+			for _, p := range sp {
+				set = append(set, Inst{T: p.Name})
+			}
+			if h.rng.Intn(2) == 0 {
+				add(fresh())
+			}
+			return
+		}
+	}
 	switch shape {
 	case "fresh":
 		for i := 0; i < 1+h.rng.Intn(3); i++ {
@@ -199,6 +218,18 @@ func (h *hist) genSet(basis int) (kind string, set []Inst, shape string) {
 			}
 		} else {
 			add(fresh())
+		}
+	case "mixed-inputs":
+		// a child with one CONFIRMED and one EPHEMERAL input, in either order
+		p := fresh()
+		add(p)
+		if e, ok := h.freshInput(l, avoid); ok && p != nil && spendable(p, 0) {
+			avoid[types.Hash256(e.ID)] = true
+			ins := []types.SiacoinElement{e, outElem(p, 0)}
+			if h.rng.Intn(2) == 0 {
+				ins[0], ins[1] = ins[1], ins[0]
+			}
+			add(h.newTx(l, v2, ins, 1+h.rng.Intn(2)))
 		}
 	case "two-inputs":
 		p := fresh()
@@ -388,7 +419,10 @@ func (h *hist) addBlock(parent int) int {
 		default: // random operations may or may not hit pooled inputs
 		}
 		ops := h.rng.Intn(3)
-		if h.mode == "c13" {
+		if h.mode != "c13" && !h.plain && !h.long && !h.fat && h.rng.Intn(6) == 0 {
+			b.Do("fc2") // v2 contracts to prove storage for (pooled storage-proof resolutions)
+		}
+		if h.mode == "c13" && !h.plain {
 			ops = 1 + h.rng.Intn(3)
 			for _, op := range []string{"fc2", "rev2", "sp2", "exp2", "renew2"} {
 				if h.rng.Intn(4) == 0 {
@@ -943,6 +977,239 @@ func (h *hist) heavyRun(k int) {
 	}
 }
 
+// storageProofs builds up to n storage-proof resolutions for contracts of l whose proof height is
+// reached and that no pooled or earlier catalogued resolution of this history touches.
+func (h *hist) storageProofs(l *mat.Ledger, n int) (out []*mat.PoolTx) {
+	taken := h.pooledInputs()
+	for _, fce := range l.SortedV2() {
+		if len(out) >= n {
+			break
+		}
+		fc := fce.V2FileContract
+		cie, ok := l.CI[fc.ProofHeight]
+		if !ok || fc.ProofHeight > l.Height() || fc.RenterPublicKey != h.s.W.Key.PublicKey() || taken[types.Hash256(fce.ID)] {
+			continue
+		}
+		out = append(out, h.s.Catalogue(h.s.W.NewStorageProofPoolTx(fce.Copy(), cie.Copy())))
+	}
+	return
+}
+
+// blockOn mines a child of `parent` that confirms exactly the given pool transactions, leaves every
+// other pooled input alone and runs the given chain operations.
+func (h *hist) blockOn(parent int, confirm []*mat.PoolTx, ops ...string) int {
+	pooled := h.pooledInputs()
+	nd := h.s.Tree.AddCustom(parent+h.s.Warm, h.rng, 0, func(b *mat.Builder) {
+		for id := range pooled {
+			b.MarkUsed(id)
+		}
+		for _, p := range confirm {
+			b.AddPoolTx(p)
+		}
+		for _, op := range ops {
+			b.Do(op)
+		}
+	})
+	if nd.Cls != "ok" || nd.L == nil {
+		h.x.mismatch("harness:block-invalid", "scripted block %d (ops %v) is %s", h.s.Abs(nd.ID), nd.Ops, nd.Cls)
+		h.x.dead = true
+	}
+	return h.s.Abs(nd.ID)
+}
+
+// extend puts n unrelated blocks on the tip, looking at the pool after each.
+func (h *hist) extend(n int, ops ...string) {
+	for i := 0; i < n && !h.x.dead; i++ {
+		h.submit(h.blockOn(h.x.Tip, nil, ops...))
+		h.x.Obs()
+	}
+}
+
+// scriptStorageProof (seed class C05-e): v2 storage-proof resolutions kept in the pool across
+// several unrelated blocks and a reorg, submitted and rebased with stale bases.  The proof of the
+// chain index element only changes when its subtree of the accumulator merges, so ONE block is not
+// enough to expose a proof that is not moved along.
+func (h *hist) scriptStorageProof() {
+	h.plain = true
+	// two contracts, formed in the same or in consecutive blocks
+	h.submit(h.blockOn(h.x.Tip, nil, "fc2", "fc2", "sc2"))
+	h.x.Obs()
+	// wait until the proof windows are open (proof height = formation height + 2 or 3)
+	for try := 0; try < 6 && len(h.storageProofs(h.tipLedger(), 2)) < 2 && !h.x.dead; try++ {
+		h.extend(1, "sc2")
+	}
+	sps := h.storageProofs(h.tipLedger(), 2)
+	if len(sps) == 0 || h.x.dead {
+		return
+	}
+	h.x.Res.Count("set_storage-proof-scripted", 1)
+	basis0 := h.x.Tip
+	h.x.AddSet("v2", h.x.Tip, []Inst{{T: sps[0].Name}})
+	// unrelated blocks underneath: the pooled proof must follow the accumulator
+	h.extend(2+h.rng.Intn(3), "sc2")
+	h.x.LookupSweep()
+	// the second proof is submitted by a caller that is several blocks behind
+	if len(sps) > 1 {
+		h.x.AddSet("v2", basis0, []Inst{{T: sps[1].Name}})
+		h.x.Rebase([]int{sps[1].Name}, basis0, h.x.Tip, "none")
+		h.x.TxSet(sps[1].Name, basis0)
+	}
+	h.x.Rebase([]int{sps[0].Name}, basis0, h.x.Tip, "none")
+	// a fork below the tip (above the proof heights) that wins: proofs are reverted and re-applied
+	fork := h.x.Tip
+	for k := 0; k < 2 && h.s.Abs(h.s.Node(fork).Parent) > basis0; k++ {
+		fork = h.s.Abs(h.s.Node(fork).Parent)
+	}
+	last := fork
+	for i := 0; i < int(h.s.Node(h.x.Tip).Height-h.s.Node(fork).Height)+1; i++ {
+		last = h.blockOn(last, nil, "sc2")
+	}
+	h.submit(last)
+	h.x.Obs()
+	h.extend(2, "sc2")
+	// resubmission with the original basis: everything is pooled
+	all := []Inst{}
+	for _, p := range sps {
+		all = append(all, Inst{T: p.Name})
+	}
+	h.x.AddSet("v2", basis0, all)
+	h.x.Rebase([]int{sps[0].Name}, h.x.Tip, basis0, "none") // and backwards
+	h.x.MineStep()
+	h.mineAdopt() // finally the proofs are confirmed
+	h.x.Obs()
+}
+
+// scriptMixedInputs (seed class C14-e): a v2 child with a CONFIRMED and an EPHEMERAL input (in
+// either order), pooled together with its parent; a block confirms only the parent; the child is
+// resubmitted with the pre-block basis -- alone, with its sibling, or as the original set.  Every
+// remaining transaction is pooled, so the answer must be `known`.
+func (h *hist) scriptMixedInputs(k int) {
+	h.plain = true
+	l := h.tipLedger()
+	avoid := map[types.Hash256]bool{}
+	e1, ok1 := h.freshInput(l, avoid)
+	avoid[types.Hash256(e1.ID)] = true
+	e2, ok2 := h.freshInput(l, avoid)
+	avoid[types.Hash256(e2.ID)] = true
+	e3, ok3 := h.freshInput(l, avoid)
+	avoid[types.Hash256(e3.ID)] = true
+	if !ok1 || !ok2 || !ok3 {
+		return
+	}
+	parent := h.newTx(l, true, []types.SiacoinElement{e1}, 3)
+	ins := []types.SiacoinElement{e2, outElem(parent, 0)} // confirmed first, ephemeral second
+	if k%2 == 1 {
+		ins = []types.SiacoinElement{outElem(parent, 0), e2}
+	}
+	child := h.newTx(l, true, ins, 1)
+	sibling := h.newTx(l, true, []types.SiacoinElement{outElem(parent, 1)}, 1)
+	three := h.newTx(l, true, []types.SiacoinElement{e3, outElem(parent, 2), outElem(sibling, 0)}, 1) // confirmed, ephemeral, ephemeral
+	basis0 := h.x.Tip
+	h.x.Res.Count("set_mixed-inputs-scripted", 1)
+	h.x.AddSet("v2", basis0, []Inst{{T: parent.Name}, {T: child.Name}, {T: sibling.Name}, {T: three.Name}})
+	// a block that confirms ONLY the parent
+	h.submit(h.blockOn(h.x.Tip, []*mat.PoolTx{parent}))
+	h.x.Obs()
+	h.x.AddSet("v2", basis0, []Inst{{T: child.Name}})
+	h.x.AddSet("v2", basis0, []Inst{{T: child.Name}, {T: sibling.Name}})
+	h.x.AddSet("v2", basis0, []Inst{{T: parent.Name}, {T: child.Name}, {T: sibling.Name}, {T: three.Name}})
+	h.x.Rebase([]int{parent.Name, child.Name, sibling.Name, three.Name}, basis0, h.x.Tip, "none")
+	h.x.TxSet(three.Name, basis0)
+	// one more block (confirms the sibling only), then the same again from the original basis
+	h.submit(h.blockOn(h.x.Tip, []*mat.PoolTx{sibling}))
+	h.x.Obs()
+	h.x.AddSet("v2", basis0, []Inst{{T: sibling.Name}, {T: three.Name}})
+	h.x.AddSet("v2", basis0, []Inst{{T: parent.Name}, {T: child.Name}, {T: sibling.Name}, {T: three.Name}})
+	h.x.Rebase([]int{child.Name, three.Name}, basis0, h.x.Tip, "none")
+	h.x.LookupSweep()
+	h.extend(1)
+}
+
+// scriptCrossKindEviction (seed class C13-e): v1 and v2 share ONE weight limit.  A low-fee-rate v2
+// transaction is pooled before a v2 parent; the broadcast set of a child is asked for; v1
+// submissions (no block, no v2 submission in between) fill the pool until the next query evicts the
+// low-fee v2 transaction and the v2 slice is compacted; the broadcast set of another child of the
+// still pooled parent is asked for again: parents before children, valid at the tip.
+func (h *hist) scriptCrossKindEviction(k int) {
+	h.plain = true
+	h.x.TwinEvery = 0
+	l := h.tipLedger()
+	limit := int(l.CS.MaxBlockWeight() * 10)
+	avoid := map[types.Hash256]bool{}
+	const size = 1_900_000
+	tiny := types.NewCurrency64(1000)
+	// the low-fee-rate v2 transaction(s), pooled first
+	nlow := 1 + k%2
+	for i := 0; i < nlow; i++ {
+		h.fee, h.fatSize = &tiny, size
+		e, ok := h.freshInput(l, avoid)
+		if !ok {
+			h.fee, h.fatSize = nil, 0
+			return
+		}
+		avoid[types.Hash256(e.ID)] = true
+		low := h.newTx(l, true, []types.SiacoinElement{e}, 1)
+		h.fee, h.fatSize = nil, 0
+		h.x.AddSet("v2", h.x.Tip, []Inst{{T: low.Name}})
+	}
+	// the v2 parent (small, good fee), three outputs
+	e, ok := h.freshInput(l, avoid)
+	if !ok {
+		return
+	}
+	avoid[types.Hash256(e.ID)] = true
+	parent := h.newTx(l, true, []types.SiacoinElement{e}, 3)
+	h.x.AddSet("v2", h.x.Tip, []Inst{{T: parent.Name}})
+	h.x.Res.Count("set_cross-kind-eviction-scripted", 1)
+	c1 := h.newTx(l, true, []types.SiacoinElement{outElem(parent, 0)}, 1)
+	h.x.TxSet(c1.Name, h.x.Tip)
+	// v1 submissions fill the pool; every AddSet is followed by a report (the query that evicts)
+	per := size + 400
+	for n := 0; n < limit/per+2 && !h.x.dead; n++ {
+		set := h.heavyChain(h.tipLedger(), false, 1+h.rng.Intn(3), size, avoid)
+		if len(set) == 0 {
+			break
+		}
+		h.x.AddSet("v1", h.x.Tip, set)
+		n += len(set) - 1
+		// ask again across whatever the v1 submission did to the v2 slice
+		c := h.newTx(l, true, []types.SiacoinElement{outElem(parent, 1)}, 1)
+		h.x.TxSet(c.Name, h.x.Tip)
+		found := false
+		for _, t := range h.x.p2 {
+			found = found || t == parent.Name
+		}
+		if !found {
+			break // the parent itself was evicted: nothing left to ask
+		}
+	}
+	c2 := h.newTx(l, true, []types.SiacoinElement{outElem(parent, 2)}, 1)
+	h.x.TxSet(c2.Name, h.x.Tip)
+	h.x.TxSet(parent.Name, h.x.Tip)
+	h.x.LookupSweep()
+}
+
+// scriptedRun plays one of the directed interplay histories.
+func (h *hist) scriptedRun(k int) {
+	if err := h.x.Reset(); err != nil {
+		h.x.mismatch("harness:reset", "%v", err)
+		return
+	}
+	h.applied[1] = true
+	switch k % 3 {
+	case 0:
+		h.scriptStorageProof()
+	case 1:
+		h.scriptMixedInputs(k / 3)
+	case 2:
+		h.scriptCrossKindEviction(k / 3)
+	}
+	if !h.x.dead {
+		h.x.Obs()
+		h.x.LookupSweep()
+	}
+}
+
 // longPrefix grows two long branches so that (from, to) pairs around the 144 limit exist.
 func (h *hist) longPrefix(la, lb int) {
 	fork := h.x.Tip
@@ -967,9 +1234,10 @@ func TestDriver(t *testing.T) {
 	nh := hx.EnvInt("VERIF_HISTORIES", 24)
 	shards := hx.EnvInt("VERIF_SHARDS", 8)
 	steps := hx.EnvInt("VERIF_STEPS", 40)
-	nfat := hx.EnvInt("VERIF_FAT", 0)     // histories that fill the pool (20 M weight)
-	nlong := hx.EnvInt("VERIF_LONG", 0)   // C13: histories with branches beyond the 144 limit
-	nheavy := hx.EnvInt("VERIF_HEAVY", 0) // C05: heavy (rejected / accepted) sets against a small pool
+	nfat := hx.EnvInt("VERIF_FAT", 0)           // histories that fill the pool (20 M weight)
+	nlong := hx.EnvInt("VERIF_LONG", 0)         // C13: histories with branches beyond the 144 limit
+	nheavy := hx.EnvInt("VERIF_HEAVY", 0)       // C05: heavy (rejected / accepted) sets against a small pool
+	nscripted := hx.EnvInt("VERIF_SCRIPTED", 0) // directed interplay histories (storage proofs, mixed inputs, cross-kind eviction)
 	longA, longB := hx.EnvInt("VERIF_LONG_A", 80), hx.EnvInt("VERIF_LONG_B", 90)
 	twinEvery := hx.EnvInt("VERIF_TWIN_EVERY", 3)
 	tag := hx.Env("VERIF_TAG", "drv")
@@ -1001,18 +1269,25 @@ func TestDriver(t *testing.T) {
 				x.Stub = stub
 				h := &hist{x: x, s: s, rng: rng, mode: mode, applied: map[int]bool{}}
 				heavy := k >= nh-nheavy
+				scripted := !heavy && k >= nh-nheavy-nscripted
 				if heavy && k%2 == 1 {
 					regime = "both" // the v1 variant needs a regime that still admits v1
 				}
-				if heavy {
+				if scripted && k%3 == 2 {
+					regime = "both" // v1 and v2 in one pool
+				}
+				if heavy || scripted {
 					s = NewScen(regime, seed, 2)
 					s.Name = fmt.Sprintf("%s-heavy-%d-%s", mode, k, regime)
+					if scripted {
+						s.Name = fmt.Sprintf("%s-scripted-%s-%d-%s", mode, []string{"storage-proof", "mixed-inputs", "cross-kind-eviction"}[k%3], k, regime)
+					}
 					x = NewExec(s, res, tw, len(abs)+1)
 					x.Stub = stub
 					h = &hist{x: x, s: s, rng: rng, mode: mode, applied: map[int]bool{}}
 				}
-				h.fat = !heavy && k < nfat
-				h.long = !heavy && !h.fat && k < nfat+nlong
+				h.fat = !heavy && !scripted && k < nfat
+				h.long = !heavy && !scripted && !h.fat && k < nfat+nlong
 				n := steps
 				if h.fat {
 					n = steps * 2
@@ -1020,6 +1295,8 @@ func TestDriver(t *testing.T) {
 				}
 				if heavy {
 					h.heavyRun(k)
+				} else if scripted {
+					h.scriptedRun(k)
 				} else if h.long {
 					if err := x.Reset(); err != nil {
 						panic(err)
